@@ -120,7 +120,9 @@ func init() {
 		// ---- SlotChain.Entry: what runs between the three loops, what goes into / comes out of each ----
 		entry("chain_Entry_frame", target{
 			Acts:      map[string]act{"defer": {Tag: chDefer}, "ctx.RuleCheckResult.ResetToPass": {Tag: chResetToPass}},
-			LoopMarks: map[int]act{1: {Tag: chLoopPrep}, 2: {Tag: chLoopCheck}, 3: {Tag: chLoopStat}}}),
+			LoopMarks: map[int]act{1: {Tag: chLoopPrep}, 2: {Tag: chLoopCheck}, 3: {Tag: chLoopStat}},
+			// the `len(xs) > 0` guards around the loops are optional: the signature does not depend on them
+			AlwaysParams: map[string]string{"preps_len": "int", "checks_len": "int", "stats_len": "int", "ctx_result": "iface", "loop2_out_0": "iface"}}),
 		// the deferred function: SetError iff something was recovered
 		entry("chain_Entry_recover", target{Lit: 1, Acts: map[string]act{"ctx.SetError": {Tag: chSetError},
 			"recover": {Tag: chRecover, Ret: hint{"panic_val", "iface"}}}}),
